@@ -42,6 +42,11 @@ type Net struct {
 	E   *sim.Env
 	Cfg Config
 
+	// WriteHook, when set, sees every write (connection, direction, bytes, fake time) and may
+	// return an absolute fake time before which these bytes must not be delivered: the seam for
+	// reactive faults such as "deliver this reply at the exact instant its time-out fires".
+	WriteHook func(c *Conn, dir string, data []byte, now int64) (holdUntil int64)
+
 	mu        sync.Mutex
 	listeners map[string]*Listener
 	conns     []*Conn // client-side endpoints, in dial order
@@ -292,12 +297,20 @@ func (c *Conn) Write(p []byte) (int, error) {
 	if c.client {
 		dir = "c2s"
 	}
+	if hk := c.n.WriteHook; hk != nil {
+		if until := hk(c, dir, p, now); until > now {
+			if h.lastDue < until {
+				h.lastDue = until // FIFO: everything from here on is due no earlier
+			}
+			e.FaultFired("hold-until")
+		}
+	}
 	for len(p) > 0 {
 		cutAt := -1
 		var trig *sim.Fault
 		for i := range c.sh.triggers {
 			f := &c.sh.triggers[i]
-			if f.Dir != dir || f.At >= 0 {
+			if (f.Dir != "" && f.Dir != dir) || f.At >= 0 {
 				continue
 			}
 			k := f.Int(0)
